@@ -130,10 +130,12 @@ def sample_cfg(name: str, rng, tier: str = "quick", small: bool = True) -> dict:
             cfg["gen"]["capacity"] = rng.choice([9, 9, 10, 12, 15, 20, 30, 40])
         # documented generator option: a vehicle smaller than the demand normalisation (default 1.0)
         if name == "sdvrp" and rng.random() < 0.25:
-            cfg["gen"]["vehicle_capacity"] = rng.choice([0.5, 0.25, 0.75])  # dyadic: exact boundary instances stay exact
+            cfg["gen"]["vehicle_capacity"] = rng.choice([0.5, 0.25, 0.75, 2.0])  # dyadic: exact boundary instances stay exact
         elif name == "cvrp" and rng.random() < 0.15:
             cfg["gen"]["vehicle_capacity"] = 0.5
             cfg["gen"]["capacity"] = rng.choice([18, 20, 30, 40])  # max demand 9: 9/18 fills it exactly
+            if rng.random() < 0.4:
+                cfg["gen"]["vehicle_capacity"] = 2.0  # a vehicle larger than the normalisation
     elif name == "cvrptw":
         cfg["gen"] = {"num_loc": n, "scale": rng.random() < 0.4}
         if rng.random() < 0.4:
